@@ -33,6 +33,7 @@ type Prog struct {
 	CanonA, CanonB int      // statements rewritten by canonicalise (if-panic -> Assert, else-after-terminator flattened)
 	Inlined        int      // calls of helpers unknown at the pinned commit that were virtually inlined
 	NewFuncs       []string // those helpers
+	Dissolved      []string // helpers without a remaining reference after inlining, removed from the trees the rules see
 	Renamed        []string // anchors resolved to a renamed successor
 	renameMemo     map[string]*ast.FuncDecl
 	inlRanges      []inlRange
